@@ -389,7 +389,10 @@ class Element(TypedContent):
     def __init__(self, schema, root):
         TypedContent.__init__(self, schema, root)
         is_reference = self.ref is not None
-        is_top_level = root.parent is schema.root
+        # The top level nodes of a schema consolidated into another one of the
+        # same namespace keep their own <schema/> node as their parent.
+        is_top_level = (root.parent is schema.root or (root.parent is not None
+            and root.parent.match("schema", Namespace.xsdns)))
         if is_reference or is_top_level:
             self.form_qualified = True
         else:
